@@ -48,6 +48,58 @@ def if_contains_index(k):
     return if_(call("contains", ident("m"), k), [expr(idx(ident("m"), k))], [expr(lit(vstr("absent")))])
 
 
+def relation_itself(rep):
+    """every ordered pair of a key domain through one fixed history; the map must agree with whatever == says about the
+    pair (spec/MapEqTrace.tla) - this also covers pairs whose equality the documentation leaves open"""
+    from ..past import vnull
+    dom = [("int:1", I(1)), ("int:0", I(0)), ("int:65", I(65)), ("int:-1", I(-1)), ("float:1.0", lit(vfloat(1.0))),
+           ("float:0.0", lit(vfloat(0.0))), ("float:-0.0", lit(vfloat("nzero"))), ("float:65.0", lit(vfloat(65.0))),
+           ("float:2.5", lit(vfloat(2.5))), ("byte:1", call("byte", I(1))), ("byte:0", call("byte", I(0))),
+           ("byte:65", lit(vbyte(65))), ("char:A", lit(vchar("A"))), ("char:1", lit(vchar("1"))), ("str:A", lit(vstr("A"))),
+           ("str:1", lit(vstr("1"))), ("str:empty", lit(vstr(""))), ("bool:true", lit(vbool(True))),
+           ("bool:false", lit(vbool(False))), ("builtin:len", ident("len")), ("arr:[1]", arr(I(1))),
+           ("arr:[1.0]", arr(lit(vfloat(1.0)))), ("arr:[byte1]", arr(call("byte", I(1)))), ("arr:[[0]]", arr(arr(I(0)))),
+           ("arr:[[0.0]]", arr(arr(lit(vfloat(0.0))))), ("arr:[]", arr()), ("arr:[65,'A']", arr(I(65), lit(vchar("A")))),
+           ("arr:[A65]", arr(lit(vbyte(65)), lit(vchar("A"))))]
+    items = []
+    for ta, a in dom:
+        for tb, b in dom:
+            prog = [OBS_DECL, let("k1", a), let("k2", b), let("m", map_()), expr(asg(idx(ident("m"), ident("k1")), I(1))),
+                    obs(bin_("==", ident("k1"), ident("k2"))), obs(call("contains", ident("m"), ident("k2"))),
+                    obs(call("insert", ident("m"), ident("k2"), I(2))), obs(call("len", ident("m"))),
+                    obs(call("get", ident("m"), ident("k1"))), obs(idx(ident("m"), ident("k2")))]
+            items.append({"id": "%s|%s" % (ta, tb), "prog": prog, "ta": ta, "tb": tb})
+    from ..past import render
+    for it in items:
+        it["src"], _ = render(it["prog"])
+    res = core.run_cases([{"id": it["id"], "src": it["src"]} for it in items])
+    recs = []
+    for it in items:
+        r = res[it["id"]]
+        it["raw"] = r
+        ob = []
+        for o in ((r.get("obs") or {}).get("v") or []):
+            if o["k"] == "bool":
+                ob.append(o["v"])
+            elif o["k"] == "int":
+                ob.append(o["v"][0] if all(b == 0 for b in o["v"][1:]) else -1)
+            elif o["k"] == "null":
+                ob.append("null")
+            else:
+                ob.append("other:" + o["k"])
+        recs.append({"id": it["id"], "how": r.get("how", "none"), "obs": ob})
+    verdicts, tres = core.tlc_validate("MapEqTrace", recs, workers=2)
+    rep.add_tlc(tres)
+    rep.cov["traces_validated_against_impl"] += len(recs)
+    rep.cov["evaluations"] += len(recs)
+    for it in items:
+        if verdicts[it["id"]]["v"] == "bad":
+            rep.disagree("map-vs-equality %s %s" % (kind(it["ta"]), kind(it["tb"])),
+                         {"src": it["src"], "keys": [it["ta"], it["tb"]], "observed": [r for r in recs if r["id"] == it["id"]][0]["obs"],
+                          "how": it["raw"].get("how"), "msg": it["raw"].get("msg")})
+    return len(items)
+
+
 def run(rep, tier, seed):
     core.build_harness()
     cases, gres = progs.generate("GenMaps", cfg="GenMaps" if tier == "quick" else "GenMaps_thorough")
@@ -59,10 +111,13 @@ def run(rep, tier, seed):
         items.append({"id": 10000000 + i, "prog": rand_history(rnd, rnd.randint(5, 30)), "w1": "rand", "k1": "rand:",
                       "w2": "", "k2": "rand:", "k3": "rand:"})
     bad, verdicts = progs.run_and_validate(rep, items, chk=())
+    nrel = relation_itself(rep)
     rep.cov["distinct_nontrivial"] = len({(it["w1"], it["k1"], it["w2"], it["k2"], it["k3"]) for it in items
-                                          if it["w1"] != "rand"}) + nrand
+                                          if it["w1"] != "rand"}) + nrand + nrel
     rep.cov["rule"] = ("TLC-enumerated histories write(k1);write(k2);query(k3) (spec/GenMaps.tla; quick takes every 5th) "
-                       "over 16 keys x 3 ways of writing, 4 queries each, plus seeded random histories; distinct = "
+                       "over 16 keys x 3 ways of writing, 4 queries each, plus seeded random histories, plus all ordered pairs of "
+                       "28 keys of every kind through one fixed history whose observations must agree with the observed "
+                       "k1 == k2 (spec/MapEqTrace.tla); distinct = "
                        "distinct (way, key, way, key, key) tuples; all contain at least one lookup")
     rep.cov["exhaustive"] = False
     for it in items[:1] + items[-1:]:
